@@ -139,6 +139,47 @@ def td_seconds(ctx: Ctx, fn: FuncInfo, call: ast.Call) -> Optional[float]:
     return total
 
 
+def check_lazy_default(ctx: Ctx, rep: Report, rule: str) -> None:
+    """
+    x690 decodes lazily: ``X690Type.from_bytes`` creates the object with ``cls()`` - no argument - stores the raw
+    octets and relies on ``pyvalue`` being the UNINITIALISED sentinel, so that ``.value`` decodes on first access.
+    A constructor of a type of the repository whose no-argument call hands anything else to the base constructor
+    (a plain ``0`` default) makes every value of that type received from an agent read as that default.
+    """
+    from ..engine.minieval import Instance, MiniEval, Raised, Unevaluable
+
+    base = ctx.u.classes.get("x690.types:X690Type")
+    sentinel_cls = ctx.u.classes.get("x690.types:_SENTINEL_UNINITIALISED")
+    fb = ctx.r.method(base, "from_bytes") if base is not None else None
+    no_arg = fb is not None and any(isinstance(n, ast.Call) and isinstance(n.func, ast.Name) and n.func.id == fb.params[0] and not n.args and not n.keywords for n in own_nodes(fb.node))
+    if base is None or sentinel_cls is None or not no_arg:
+        rep.undecided(rule, "x690/types.py (X690Type.from_bytes)", "x690 creates decoded objects with cls() and the UNINITIALISED sentinel", "not recognised in the installed x690")
+        return
+    for cls in sorted(ctx.u.classes.values(), key=lambda c: c.key):
+        if cls.module.external or not cls.module.name.startswith("puresnmp") or not ctx.r.is_subclass(cls, base):
+            continue
+        init = cls.methods.get("__init__")
+        if init is None:
+            continue  # the x690 constructor is used as it is
+        a_ = init.node.args  # type: ignore[attr-defined]
+        if len(a_.args) - 1 > len(a_.defaults) or any(d is None for d in a_.kw_defaults):
+            continue  # cannot be created without arguments: x690 refuses to decode it (X690Error) instead of handing out a default
+        text = f"{cls.name}() - how x690 creates a decoded value - hands the lazy-decoding sentinel to the base constructor (the wire octets are decoded on access, not replaced by a default)"
+        inst = Instance(cls, [], {})
+        try:
+            MiniEval(ctx).call_function(init, [inst])
+        except Unevaluable as exc:
+            rep.undecided(rule, init.site(), text, f"not evaluable: {exc}")
+            continue
+        except Raised as exc:
+            rep.violated(rule, init.site(), text, f"raises {exc.value!r}", key=f"{init.key}|lazy-default")
+            continue
+        calls = [c for c in inst.attrs.get("__super_calls__", []) if c[0] == "__init__"]
+        got = (calls[-1][1][0] if calls[-1][1] else calls[-1][2].get("value", "<x690 default>")) if calls else None
+        ok = len(calls) == 1 and (got == "<x690 default>" or (isinstance(got, Instance) and got.cls.key == sentinel_cls.key))
+        rep.check(ok, rule, init.site(), text, f"the base constructor receives {got!r} ({len(calls)} call(s))", key=f"{init.key}|lazy-default")
+
+
 def run(ctx: Ctx, rep: Report) -> None:
     rep.rule("C17-R1", "Counter32 / Counter64 constructors: negative -> 0, otherwise v mod 2^bits (boundary evaluation of the constructor CFG)", floor=15)
     rep.rule("C17-R2", "TimeTicks <-> timedelta at 100 ticks per second with no truncation of an inexact float", floor=3)
@@ -146,6 +187,7 @@ def run(ctx: Ctx, rep: Report) -> None:
     rep.rule("C17-R6", "every application type value up to the top of its range can be carried in a PDU (the PDU encoder takes Counter64 up to 2^64-1 etc.; shared with C05-R1)", floor=2)
     rep.rule("C17-R5", "the pythonic view goes through pythonize(): PyVarBind.from_raw and the wrapper never hand out the bare tick count (shared with C15-R1)", floor=5)
     rep.rule("C17-R4", "application types: RFC 2578 tags, unsigned decode on every decode hook", floor=5)
+    rep.rule("C17-R7", "a type created without an argument (how x690 creates every decoded value) keeps the lazy-decoding sentinel: what the agent sent is decoded on access, not replaced by a constructor default", floor=1)
     rep.assumptions += [
         "x690.types.Integer encodes/decodes arbitrary Python integers (its codec over full ranges is not analysed here)",
         "timedelta(seconds=n/100.0) is exact for n < 2**32: the float error (< 5e-9 s) is far below the half microsecond to which timedelta rounds",
@@ -400,5 +442,6 @@ def run(ctx: Ctx, rep: Report) -> None:
             rep.check(not foreign, "C17-R4", site, f"{name}: the decode hooks overridden in the repository read the octets with the class's own signedness", "; ".join(foreign), key=f"{cls.key}|foreign-decode")
         else:
             rep.ok("C17-R4", site, f"{name} (tag {tag}) is registered", "")
+    check_lazy_default(ctx, rep, "C17-R7")
     rep.adopt_rules(ctx.sub_run("c15", rep), "C17-R5", ["C15-R1"])
     rep.adopt_rules(ctx.sub_run("c05", rep), "C17-R6", ["C05-R1"])
